@@ -51,7 +51,8 @@ MODULES = {
     "C01": (["C01"], [("C05", "C01_words")]),
     "C05": (["C05", "C05r"], []),
     "C13": (["C13"], [("C05", "C13_leading"), ("C05", "C13_leading_pass")]),
-    "C16": (["C16", "C16b"], []),
+    "C02": (["C02", "E2E"], []),
+    "C16": (["C16", "C16b", "C16c"], []),
     "C17": (["C17"], [("C03", "C03_parse_total"), ("C03", "C03_compile_total")]),
 }
 ELSEWHERE = {("C05", "C01_words"), ("C05", "C13_leading"), ("C05", "C13_leading_pass")}
@@ -644,20 +645,32 @@ class C05(Prop):
 
 # ------------------------------------------------------------------------------------------- C06
 
+TWO_ARG_KEYWORDS = ("-fprintf", "-xattr-match")
+
+
 def layout_variants(rng, ws, k):
-    """k spellings of the same abstract expression given as canonical words"""
+    """k spellings of the same abstract expression given as canonical words. Words that are the
+    ARGUMENT of a primary are never re-spelled as operators (an argument may well be the word -a)."""
     vs = []
     for _ in range(k):
         out = []
+        args_left = 0
         for w in ws:
-            if w in ("-a", "-and"):
+            if args_left > 0:
+                args_left -= 1
+                if w.startswith("'") and w.endswith("'") and len(w) >= 2:
+                    out.append(gen.quote(rng, w[1:-1]) or w)
+                else:
+                    out.append(w)
+                continue
+            if w in ARG_KEYWORDS:
+                args_left = 2 if w in TWO_ARG_KEYWORDS else 1
+                out.append(w)
+            elif w in ("-a", "-and"):
                 c = rng.choice(["-a", "-and", None])
                 if c: out.append(c)
             elif w in ("-o", "-or"):
                 out.append(rng.choice(["-o", "-or"]))
-            elif w.startswith("'") and w.endswith("'") and len(w) >= 2:
-                v = w[1:-1]
-                out.append(gen.quote(rng, v) or w)
             else:
                 out.append(w)
         vs.append(gen.join_words(rng, out, fancy=True))
